@@ -23,6 +23,15 @@ if [ -x $src/demo/run.sh ] || [ -f $src/demo/run.sh ]; then
   (cd $src/demo && bash run.sh $wt/bin.patched >$wt/demo.patched.log 2>&1); rp=$?
   (cd $src/demo && bash run.sh $wt/bin.clean >$wt/demo.clean.log 2>&1); rc=$?
   res "DEMO patched=$rp clean=$rc"
+elif ls $src/demo/*.rs >/dev/null 2>&1; then
+  # demonstration is a Rust integration test: fails with the patch, passes without it
+  t=$(basename $(ls $src/demo/*.rs | head -1) .rs)
+  cp $src/demo/$t.rs tests/$t.rs
+  if cargo test --quiet --offline --test $t >$wt/demo.patched.log 2>&1; then rp=0; else rp=1; fi
+  git apply -R $src/patch.diff
+  if cargo test --quiet --offline --test $t >$wt/demo.clean.log 2>&1; then rc=0; else rc=1; fi
+  rm -f tests/$t.rs
+  res "DEMO(test $t) patched=$rp clean=$rc"
 else
   res "NO-DEMO-SCRIPT"; rp=-1; rc=-1
 fi
